@@ -373,7 +373,20 @@ func (c *Check) sortedBeforeUse(fn *ssa.Function, src ssa.Value, first ssa.Instr
 		return false
 	}
 	site := transparentSite(fn)
-	for _, use := range taintedUses(fn, src) {
+	uses := taintedUses(fn, src)
+	if len(sorts) == 0 {
+		// nothing sorts the data here: acceptable only if a transparent helper hands it back and its caller sorts it
+		handsBack := false
+		for _, u := range uses {
+			if _, isRet := u.(*ssa.Return); isRet && site != nil {
+				handsBack = true
+			}
+		}
+		if !handsBack {
+			return false, "slice filled in map order is never sorted by " + keyField + " afterwards"
+		}
+	}
+	for _, use := range uses {
 		if body[use.Block()] || isSort(use) {
 			continue
 		}
@@ -467,9 +480,13 @@ func taintedUses(fn *ssa.Function, src ssa.Value) []ssa.Instruction {
 			switch x := i.(type) {
 			case *ssa.Store:
 				if tv[x.Val] {
-					if a := rootAlloc(x.Addr); a != nil && !ta[a] {
-						ta[a] = true
-						changed = true
+					if a := rootAlloc(x.Addr); a != nil {
+						if !ta[a] {
+							ta[a] = true
+							changed = true
+						}
+					} else {
+						addUse(x) // stored through a pointer that is not a local: the data leaves the function
 					}
 				}
 			case *ssa.UnOp:
